@@ -1704,6 +1704,8 @@ impl Scenario for C12 {
     }
 
     fn run(&self, case: &Case, ctx: &Arc<RunCtx>) -> RunOut {
+        // switch threads only at this scenario's own layer's sites (see sched::Baton::allow)
+        crate::sched::set_allowed_sites(&["c12.", "tensor_chain."]);
         ctx.event(&format!("C12 mode={:?} threads={} tail={}", case.mode, case.threads.len(), case.tail.len()));
         match case.mode {
             Mode::Graph => run_graph(case, ctx),
